@@ -73,6 +73,8 @@ axiom('word', 'lemma', 'drop-zero', ForAll([_k, _w], Implies(_k <= 0, drop(_k, _
 axiom('word', 'lemma', 'take-drop-app', ForAll([_k, _w], app(take(_k, _w), drop(_k, _w)) == _w))
 axiom('word', 'lemma', 'take-over', ForAll([_k, _w, _S], Implies(over(_S, _w), over(_S, take(_k, _w)))))
 axiom('word', 'lemma', 'drop-over', ForAll([_k, _w, _S], Implies(over(_S, _w), over(_S, drop(_k, _w)))))
+axiom('word', 'lemma', 'take-app', ForAll([_u, _v], take(wlen(_u), app(_u, _v)) == _u))
+axiom('word', 'lemma', 'drop-app', ForAll([_u, _v], drop(wlen(_u), app(_u, _v)) == _v))
 axiom('word', 'def', 'rev-nil', rev(Word.nil) == Word.nil)
 axiom('word', 'def', 'rev-snoc', ForAll([_w, _a], rev(Word.snoc(_w, _a)) == cons(_a, rev(_w))))
 
@@ -100,6 +102,10 @@ def s_rev(ev, w): return _sv_word(rev(w.z))
 def s_snoc(ev, w, a): return _sv_word(Word.snoc(w.z, a.z))
 @spec('nil')
 def s_nil(ev): return _sv_word(Word.nil)
+@spec('init')
+def s_init(ev, w): return _sv_word(Word.init(w.z))
+@spec('last')
+def s_last(ev, w): return SV(ATOM, Word.last(w.z))
 @spec('single')
 def s_single(ev, a): return _sv_word(Word.snoc(Word.nil, a.z))
 
@@ -338,7 +344,7 @@ def s_tm_verdict(ev, Tm, w, k):
 Lang = z3.DeclareSort('Lang')
 lzero, lone = z3.Const('lzero', Lang), z3.Const('lone', Lang)
 lsym = Function('lsym', Atom, Lang); lplus = Function('lplus', Lang, Lang, Lang); lcat = Function('lcat', Lang, Lang, Lang); lstar = Function('lstar', Lang, Lang)
-Lof = Function('L', Regexp, Lang)
+Lof = Function('Lang_of', Regexp, Lang)
 lmem = Function('mem', Word, Lang, BoolSort())
 rsize = Function('rsize', Regexp, Int)      # the library's regexp_size: Iteration +1, binary +2
 rnodes = Function('rnodes', Regexp, Int)    # number of nodes (termination measure)
@@ -382,3 +388,10 @@ def s_mem(ev, w, X): return SV(BOOL, lmem(w.z, X.z))
 def s_rsize(ev, r): return SV(INT, rsize(r.z))
 @spec('rnodes')
 def s_rnodes(ev, r): return SV(INT, rnodes(r.z))
+
+for _nm, _tst in [('is_zero', RXd.is_Zero), ('is_one', RXd.is_One), ('is_sym', RXd.is_Sym), ('is_iter', RXd.is_Iter), ('is_sum', RXd.is_Sum), ('is_concat', RXd.is_Concat)]:
+    SPEC[_nm] = (lambda t: (lambda ev, r: SV(BOOL, t(r.z))))(_tst)
+
+
+@spec('tm_accepted')
+def s_tm_accepted(ev, Tm, w, k): return SV(BOOL, run_q(Tm.z, w.z, k.z) == rec_get(Tm, 'q_accept').z)
